@@ -695,3 +695,96 @@ def value_reaches_processor(rule, prog, key="processed"):
     else:
         rule.violation(key, "between the layout look-up and the key-value processor the key event can return: a key the layout assigns a value to is dropped "
                        "under some condition and appends nothing", site_dict(prog, handler, b, some_tgts[0]))
+
+
+def built_now(rule, prog, event_fn, label, ctor_names, ident="built-now", fresh_list=False):
+    """Every Suggestion the event can return was produced on this event's own path by a Suggestion constructor (possibly through local
+    functions) — not loaded or cloned from state kept since an earlier event.  A replayed value shows what an earlier text looked like."""
+    from engine.analyses import peel_conv
+    b = prog.body(event_fn)
+    bad = []          # (kind, description)
+    n_src = [0]
+
+    def of_expr(e, body, depth, seen):
+        e = strip_refs(e)
+        if e.k == "phi":
+            for x in e.a[0]:
+                of_expr(x, body, depth, seen)
+            return
+        if e.k == "call":
+            g = e.a[0]
+            if g in ctor_names:
+                n_src[0] += 1
+                if fresh_list and ctor_names[g] == "list" and len(e.a[1]) > 1:
+                    lst = strip_refs(peel_conv(strip_refs(e.a[1][1])))
+                    spl = self_path(lst)
+                    if spl is not None and len(spl) >= 1:
+                        bad.append(("stored-list", "self.%s" % ".".join(str(x) for x in spl)))
+                return
+            last = g.split("::")[-1]
+            if last in ("clone", "to_owned", "take", "replace") and e.a[1]:
+                sp0 = self_path(strip_refs(e.a[1][0]))
+                if sp0 is not None and len(sp0) >= 1:
+                    bad.append(("stored", "self.%s" % ".".join(str(x) for x in sp0)))
+                    return
+            if g in prog.fns and depth < 6:
+                if g in seen:
+                    return
+                of_fn(g, depth + 1, seen | {g})
+                return
+            if last in ("clone", "to_owned", "take", "replace", "unwrap_or_default", "unwrap", "unwrap_or", "unwrap_or_else", "expect") and e.a[1]:
+                inner = strip_refs(e.a[1][0])
+                sp = self_path(inner)
+                if sp is not None and len(sp) >= 1:
+                    bad.append(("stored", "self.%s" % ".".join(str(x) for x in sp)))
+                    return
+                of_expr(inner, body, depth, seen)
+                return
+            bad.append(("unknown", g))
+            return
+        sp = self_path(e)
+        if sp is not None and len(sp) >= 1:
+            bad.append(("stored", "self.%s" % ".".join(str(x) for x in sp)))
+            return
+        p2 = peel_conv(e)
+        if p2 is not e and p2 != e:
+            of_expr(p2, body, depth, seen)
+            return
+        bad.append(("unknown", repr(e)[:120]))
+
+    def of_fn(g, depth, seen):
+        gb = prog.body(g)
+        ds = gb.defs.get(0, [])
+        if not ds:
+            bad.append(("unknown", "no definition of the return value in %s" % g))
+        for d in ds:
+            if d[3] is None:
+                continue
+            if d[2] == "call" and not d[3]["dest"]["p"]:
+                t = d[3]
+                of_expr(E("call", callee_name(t), tuple(gb.expr_operand(a) for a in t["args"]), d[0], t=t), gb, depth, seen)
+            elif d[2] == "assign" and not d[3]["place"]["p"]:
+                of_expr(gb.expr_rvalue(d[3]["rv"]), gb, depth, seen)
+            elif d[3].get("place", {}).get("p") or d[3].get("dest", {}).get("p"):
+                continue          # a write into a part of the value (the selection of a suggestion just built)
+            else:
+                bad.append(("unknown", "return value of %s defined by %s" % (g, d[2])))
+
+    of_fn(event_fn, 0, frozenset([event_fn]))
+    stored = sorted({d for k, d in bad if k == "stored"})
+    unknown = sorted({d for k, d in bad if k == "unknown"})
+    key = "%s:%s" % (ident, label)
+    stored_list = sorted({d for k, d in bad if k == "stored-list"})
+    if stored_list and not stored:
+        rule.violation(key, "the event can return a list suggestion built from %s as it was left by an earlier event — the candidates are not those of the present "
+                       "text and options" % ", ".join(stored_list), fn_line(prog, event_fn))
+        return
+    if stored:
+        rule.violation(key, "the event can return a suggestion taken from %s — a value kept from an earlier event instead of one built from the present text "
+                       "(after a back-space or an option change it shows an earlier state)" % ", ".join(stored), fn_line(prog, event_fn))
+    elif unknown:
+        rule.undecidable(key, "cannot tell where a returned suggestion comes from: %s" % "; ".join(unknown)[:300], fn_line(prog, event_fn))
+    elif n_src[0] == 0:
+        rule.undecidable(key, "no Suggestion constructor found behind the event's return value", fn_line(prog, event_fn))
+    else:
+        rule.ok(key, "every returned suggestion comes from a Suggestion constructor run on this event's path (%d source(s))" % n_src[0])
